@@ -215,19 +215,47 @@ func (s *TieredCompactionStrategy) CompactRange(minKey, maxKey []byte) error {
 		}
 	}
 
-	// Find overlapping files in each level
-	for level := 0; level <= maxLevel; level++ {
-		var overlappingFiles []*SSTableInfo
+	// Find overlapping files in each level. The outputs go below every other table, so every
+	// table that shares a key range with an input must be an input as well (whole files are
+	// compacted, and an input may reach beyond the requested range): widen the range to the
+	// hull of the selected files until nothing more is added. Otherwise a newer version could
+	// sink below an older one that stays behind in a shallower table.
+	for {
+		selected := 0
+		for _, files := range task.InputFiles {
+			selected += len(files)
+		}
+		task.InputFiles = make(map[int][]*SSTableInfo)
+		for level := 0; level <= maxLevel; level++ {
+			var overlappingFiles []*SSTableInfo
 
-		for _, file := range s.levels[level] {
-			if file.Overlaps(rangeInfo) {
-				overlappingFiles = append(overlappingFiles, file)
+			for _, file := range s.levels[level] {
+				if file.Overlaps(rangeInfo) {
+					overlappingFiles = append(overlappingFiles, file)
+				}
+			}
+
+			if len(overlappingFiles) > 0 {
+				task.InputFiles[level] = overlappingFiles
 			}
 		}
-
-		if len(overlappingFiles) > 0 {
-			task.InputFiles[level] = overlappingFiles
+		now := 0
+		hull := &SSTableInfo{FirstKey: rangeInfo.FirstKey, LastKey: rangeInfo.LastKey}
+		for _, files := range task.InputFiles {
+			now += len(files)
+			for _, file := range files {
+				if bytes.Compare(file.FirstKey, hull.FirstKey) < 0 {
+					hull.FirstKey = file.FirstKey
+				}
+				if bytes.Compare(file.LastKey, hull.LastKey) > 0 {
+					hull.LastKey = file.LastKey
+				}
+			}
 		}
+		if now == selected {
+			break
+		}
+		rangeInfo = hull
 	}
 
 	// If no files overlap with the range, no compaction needed
